@@ -652,6 +652,12 @@ pub fn run_behaviours(behaviours: &[Vec<Value>], out: &mut Out) -> Result<(), St
                 let ev = world.step(op).await;
                 out.emit(&ev);
             }
+            // request objects still held are released one by one: a panicking destructor must not take the harness down with it
+            if let Some(world) = w.as_mut() {
+                for t in world.talks.drain(..).flatten() {
+                    let _ = util::guarded(move || drop(t));
+                }
+            }
         });
         drop(rt);
     }
